@@ -7,8 +7,6 @@ import (
 	"go/token"
 	"go/types"
 
-	"golang.org/x/tools/go/cfg"
-
 	"rscheck/cfgq"
 	"rscheck/core"
 	"rscheck/driver"
@@ -42,48 +40,56 @@ func recvType(f *types.Func) types.Type {
 	return sig.Recv().Type()
 }
 
-// condCalls lists the sync.Cond fields on which node n executes one of methods.
-func condCalls(info *types.Info, n ast.Node, methods ...string) []string {
-	return ring.CondOps(theCtx, info, n, methods...)
+func fieldVar(c *core.Ctx, typ, name string) *types.Var { return ring.FieldVar(c, pkg, typ, name) }
+
+// verdict collects the first failing trace of one obligation.
+type verdict struct {
+	seen bool
+	bad  *ring.Trace
+	pos  token.Pos
 }
 
-func has(l []string, s string) bool {
-	for _, x := range l {
-		if x == s {
-			return true
-		}
+func (v *verdict) add(t *ring.Trace, pos token.Pos, ok bool) {
+	if !v.seen {
+		v.pos = pos
 	}
-	return false
-}
-
-func noProgressEdge(g *cfgq.Graph, info *types.Info, b *cfg.Block, succ int, binds pat.Binds) bool {
-	gotN, gotErr := false, false
-	for _, f := range g.EdgeFacts(b, succ) {
-		if pat.Expr("_n != 0").Match(info, f.Expr, binds) != nil && !f.Val || pat.Expr("_n == 0").Match(info, f.Expr, binds) != nil && f.Val {
-			gotN = true
-		}
-		if pat.Expr("_err != nil").Match(info, f.Expr, binds) != nil && !f.Val || pat.Expr("_err == nil").Match(info, f.Expr, binds) != nil && f.Val {
-			gotErr = true
-		}
+	v.seen = true
+	if !ok && v.bad == nil {
+		v.bad = t
+		v.pos = pos
 	}
-	return gotN && gotErr
 }
 
-var theCtx *core.Ctx
+func (v *verdict) report(c *core.Ctx, rule, key string, def token.Pos, msg string) {
+	pos := v.pos
+	if !pos.IsValid() {
+		pos = def
+	}
+	var w []string
+	if v.bad != nil {
+		w = v.bad.Witness(c)
+	}
+	c.Check(rule, key, pos, v.bad == nil, msg, w...)
+}
+
+func isUnlock(e *ring.Event) bool {
+	return e.Kind == ring.EvCall && e.Callee != nil && e.Callee.Pkg() != nil && e.Callee.Pkg().Path() == "sync" && (e.Callee.Name() == "Unlock" || e.Callee.Name() == "RUnlock")
+}
 
 func Run(c *core.Ctx) {
-	theCtx = c
 	pk := c.Pkg(pkg)
 	if pk == nil {
 		c.Undecidedf("anchor", pkg, token.NoPos, "package not loaded")
 		return
 	}
-	info := pk.TypesInfo
 
 	// ---- R1
-	n := ring.GuardTable(c, "R1.guard", pkg, "Backlog", "mu", []string{"err", "store", "rwait"})
-	if n < 10 {
-		c.Undecidedf("instances", "R1.guard", token.NoPos, "only %d guarded accesses found, 20+ confirmed by hand", n)
+	guarded := []string{"err", "store", "rwait"}
+	n, perField := ring.GuardTable(c, "R1.guard", pkg, "Backlog", "mu", guarded)
+	for _, f := range guarded {
+		if perField[f] < 2 {
+			c.Undecidedf("instances", "R1.guard", token.NoPos, "only %d guarded accesses to Backlog.%s found (%d in total)", perField[f], f, n)
+		}
 	}
 	ring.CondOver(c, "R1.cond", pkg, "Backlog", "rwait", "mu")
 	writeLock(c)
@@ -96,26 +102,9 @@ func Run(c *core.Ctx) {
 		return
 	}
 	r2write(c, writeSome)
-	r2read(c, readSomeAt)
+	rr := r2read(c, readSomeAt)
 	r2close(c, closeFn)
-	// no other Wait in the package
-	for _, b := range ring.Bodies(c, pkg) {
-		if b.Lit == nil && b.Decl == readSomeAt.Decl {
-			continue
-		}
-		var root ast.Node = b.Decl.Body
-		if b.Lit != nil {
-			root = b.Lit
-		}
-		core.Inspect(root, func(m ast.Node) bool {
-			if call, ok := m.(*ast.CallExpr); ok {
-				if f := core.CalleeFunc(info, call); f != nil && f.Name() == "Wait" && core.NamedTypePath(recvType(f)) == "sync.Cond" {
-					c.Failf("R2.wake", "extra-wait/"+b.Name, call.Pos(), "sync.Cond.Wait outside readSomeAt: a sleeper the write/close broadcasts are not designed for")
-				}
-			}
-			return true
-		})
-	}
+	extraWaits(c, rr)
 
 	// ---- R3, R4, R5
 	impls := ring.ImplementersOf(c, pkg, "buffer")
@@ -123,7 +112,7 @@ func Run(c *core.Ctx) {
 		c.Undecidedf("R5.sibling", "implementations", token.NoPos, "expected the memory and file implementations of buffer, found %d", len(impls))
 	}
 	for _, t := range impls {
-		stores(c, t.Obj().Name())
+		stores(c, t)
 	}
 	reader(c)
 
@@ -138,6 +127,67 @@ func Run(c *core.Ctx) {
 	})
 }
 
+// extraWaits: a sync.Cond.Wait that is not one of the events of readSomeAt
+// (helpers it calls are inlined there).
+func extraWaits(c *core.Ctx, results ...*ring.SymResult) {
+	covered := map[token.Pos]bool{}
+	for _, r := range results {
+		if r == nil {
+			continue
+		}
+		for _, t := range r.Traces {
+			for _, e := range t.Events {
+				if _, m, _ := ring.CondOp(e); m == "Wait" && e.Call != nil {
+					covered[e.Call.Pos()] = true
+				}
+			}
+		}
+	}
+	info := c.Pkg(pkg).TypesInfo
+	pc := ring.CallsIn(c, pkg)
+	const waitRule = "R2.wake"
+	anchors := map[*types.Func]bool{}
+	for _, r := range results {
+		if r != nil {
+			anchors[r.Fn.Obj.Origin()] = true
+		}
+	}
+	for _, b := range ring.Bodies(c, pkg) {
+		var root ast.Node = b.Decl.Body
+		if b.Lit != nil {
+			root = b.Lit
+		}
+		b := b
+		core.Inspect(root, func(m ast.Node) bool {
+			call, ok := m.(*ast.CallExpr)
+			if !ok {
+				return true
+			}
+			f := core.CalleeFunc(info, call)
+			if f == nil || f.Name() != "Wait" || core.NamedTypePath(recvType(f)) != "sync.Cond" {
+				return true
+			}
+			if covered[call.Pos()] {
+				// the site is part of an anchored operation; it must not be reachable around it
+				if encl, _ := info.Defs[b.Decl.Name].(*types.Func); encl != nil {
+					if ok, entry := pc.OnlyVia(encl, anchors); !ok {
+						c.Failf(waitRule, "extra-wait/"+ring.BodyName(entry), call.Pos(), "%s reaches a sync.Cond.Wait without going through the anchored wait operation: a sleeper the wake-ups are not designed for", ring.BodyName(entry))
+					}
+				}
+				return true
+			}
+			fo, _ := info.Defs[b.Decl.Name].(*types.Func)
+			if fo != nil && !pc.Referenced(fo) {
+				return true // dead code
+			}
+			c.Failf("R2.wake", "extra-wait/"+b.Name, call.Pos(), "sync.Cond.Wait outside readSomeAt: a sleeper the write/close broadcasts are not designed for")
+			return true
+		})
+	}
+}
+
+// writeLock: every call of writeSome happens with wl held (in Write itself or
+// in a helper / closure only ever invoked with wl held).
 func writeLock(c *core.Ctx) {
 	fn := c.Func(pkg, "Backlog", "Write")
 	in := c.Func(pkg, "Backlog", "writeSome")
@@ -145,159 +195,199 @@ func writeLock(c *core.Ctx) {
 		return
 	}
 	info := fn.Pkg.TypesInfo
-	g := cfgq.Of(c.Program, fn)
-	isCall := func(method string) func(ast.Node) bool {
-		return func(n ast.Node) bool {
-			if _, ok := n.(*ast.DeferStmt); ok {
-				return false
-			}
-			for _, call := range cfgq.ExecCalls(n) {
-				if sel, ok := ast.Unparen(call.Fun).(*ast.SelectorExpr); ok && sel.Sel.Name == method && core.IsFieldNamed(info, sel.X, "Backlog", "wl") {
-					return true
-				}
-			}
-			return false
-		}
-	}
-	held := g.Held(isCall("Lock"), isCall("Unlock"))
-	k := 0
-	for _, p := range g.Points(g.HasCall(func(call *ast.CallExpr, callee types.Object) bool { return callee == in.Obj })) {
-		k++
-		c.Check("R1.side", "Write/wl", p.Node().Pos(), held[p.Node()], "Write must call writeSome with wl held for the whole transfer (concurrent writers would interleave their chunks)")
-	}
-	if k == 0 {
-		c.Undecidedf("R1.side", "Write/wl", fn.Decl.Pos(), "Write does not call writeSome")
-	}
-	for _, b := range ring.Bodies(c, pkg) {
-		if b.Decl == fn.Decl {
-			continue
-		}
+	ls := ring.LockHeld(c, pkg, "Backlog", "wl")
+	pc := ring.CallsIn(c, pkg)
+	total := 0
+	for i, b := range ls.Bodies {
 		var root ast.Node = b.Decl.Body
 		if b.Lit != nil {
-			root = b.Lit
+			root = b.Lit.Body
+		}
+		i, b := i, b
+		if fo, _ := info.Defs[b.Decl.Name].(*types.Func); fo != nil && !pc.Referenced(fo) {
+			continue // dead code
 		}
 		core.Inspect(root, func(m ast.Node) bool {
-			if call, ok := m.(*ast.CallExpr); ok && core.CalleeFunc(info, call) == in.Obj {
-				c.Failf("R1.side", "writeSome/foreign-caller/"+b.Name, call.Pos(), "writeSome is called outside Write, i.e. without wl")
+			call, ok := m.(*ast.CallExpr)
+			if !ok || core.CalleeFunc(info, call) != in.Obj {
+				return true
+			}
+			total++
+			held := ls.HeldAt(i, call)
+			msg := "writeSome must be called with wl held for the whole transfer (concurrent writers would interleave their chunks)"
+			switch {
+			case b.Decl == fn.Decl:
+				c.Check("R1.side", "Write/wl", call.Pos(), held, msg)
+			case held:
+				c.Okf("R1.side", "writeSome/caller/"+b.Name, call.Pos(), "%s", msg)
+			default:
+				c.Failf("R1.side", "writeSome/foreign-caller/"+b.Name, call.Pos(), "writeSome is called outside Write without wl")
 			}
 			return true
 		})
 	}
-}
-
-func storeCall(fn *core.Fn, src string) (*ast.AssignStmt, pat.Binds) {
-	n, b := pat.Stmt(src).Find(fn.Pkg.TypesInfo, fn.Decl.Body, nil)
-	if n == nil {
-		return nil, nil
+	if total == 0 {
+		c.Undecidedf("R1.side", "Write/wl", fn.Decl.Pos(), "no call of writeSome found")
 	}
-	return n.(*ast.AssignStmt), b
 }
 
 func r2write(c *core.Ctx, fn *core.Fn) {
-	info := fn.Pkg.TypesInfo
-	g := cfgq.Of(c.Program, fn)
-	as, binds := storeCall(fn, "_n, _err = _p.store.writeSome(_b)")
-	if as == nil {
-		c.Undecidedf("R2.wake", "writeSome/store-call", fn.Decl.Pos(), "cannot find `n, err := bl.store.writeSome(b)`")
+	res := ring.RunSym(c, fn, &ring.Sym{})
+	if ok, why := res.Usable(); !ok {
+		c.Undecidedf("R2.wake", "writeSome/store-call", fn.Decl.Pos(), "%s", why)
 		return
 	}
-	sp, _ := g.Find(as)
-	bcast := func(n ast.Node) bool { return has(condCalls(info, n, "Broadcast"), "rwait") }
-	w := g.Path(cfgq.Query{From: sp, After: true, Avoid: bcast, TargetExit: cfgq.NormalExit,
-		AvoidEdge: func(b *cfg.Block, s int) bool { return noProgressEdge(g, info, b, s, binds) }})
-	c.Check("R2.wake", "writeSome/broadcast-on-progress", as.Pos(), w == nil,
-		"every path on which the store accepted bytes or failed must call rwait.Broadcast() before returning: every reader waiting at the write position has to be woken (Signal would wake only one)", w...)
-	// closed / error tests before the store write
-	for _, fact := range []struct{ key, yes, no string }{
-		{"store-open", "_p.store != nil", "_p.store == nil"},
-		{"no-error", "_p.err == nil", "_p.err != nil"},
-	} {
-		fact := fact
-		ok, w := g.OnlyViaFact(sp, func(f cfgq.Fact) bool {
-			return pat.Expr(fact.yes).Match(info, f.Expr, nil) != nil && f.Val || pat.Expr(fact.no).Match(info, f.Expr, nil) != nil && !f.Val
-		})
-		c.Check("R2.wake", "writeSome/"+fact.key+"-before-store", as.Pos(), ok, "the store write is reachable only after the closed/error state was tested", w...)
+	storeVar, errVar := fieldVar(c, "Backlog", "store"), fieldVar(c, "Backlog", "err")
+	var bcast, open, noErr verdict
+	for _, t := range res.Traces {
+		s := t.First(func(e *ring.Event) bool { return ring.IsFieldCall(e, "store", "writeSome") })
+		if s == nil {
+			continue
+		}
+		if t.Normal() && ring.MayProgress(t.Facts, s) {
+			bcast.add(t, s.Pos, t.First(func(e *ring.Event) bool { return e.Index > s.Index && ring.IsCondOp(e, "rwait", "Broadcast") }) != nil)
+		} else {
+			bcast.add(t, s.Pos, true)
+		}
+		open.add(t, s.Pos, t.FactsAt(s).NonNil(s.FieldNow(res.Recv, storeVar)))
+		noErr.add(t, s.Pos, t.FactsAt(s).IsNil(s.FieldNow(res.Recv, errVar)))
 	}
+	if !bcast.seen {
+		c.Undecidedf("R2.wake", "writeSome/store-call", fn.Decl.Pos(), "no path of writeSome calls bl.store.writeSome")
+		return
+	}
+	bcast.report(c, "R2.wake", "writeSome/broadcast-on-progress", fn.Decl.Pos(),
+		"every path on which the store accepted bytes or failed must call rwait.Broadcast() before returning: every reader waiting at the write position has to be woken (Signal would wake only one)")
+	open.report(c, "R2.wake", "writeSome/store-open-before-store", fn.Decl.Pos(), "the store write is reachable only after the closed/error state was tested")
+	noErr.report(c, "R2.wake", "writeSome/no-error-before-store", fn.Decl.Pos(), "the store write is reachable only after the closed/error state was tested")
 }
 
-func r2read(c *core.Ctx, fn *core.Fn) {
-	info := fn.Pkg.TypesInfo
-	g := cfgq.Of(c.Program, fn)
-	as, binds := storeCall(fn, "_n, _err = _p.store.readSomeAt(_b, _rpos)")
-	if as == nil {
-		c.Undecidedf("R2.wake", "readSomeAt/store-call", fn.Decl.Pos(), "cannot find `n, err := bl.store.readSomeAt(b, rpos)`")
-		return
+func r2read(c *core.Ctx, fn *core.Fn) *ring.SymResult {
+	res := ring.RunSym(c, fn, &ring.Sym{})
+	if ok, why := res.Usable(); !ok {
+		c.Undecidedf("R2.wake", "readSomeAt/store-call", fn.Decl.Pos(), "%s", why)
+		return res
 	}
-	// the offset passed down is the caller's offset parameter
-	var params []*ast.Ident
-	for _, f := range fn.Decl.Type.Params.List {
-		params = append(params, f.Names...)
-	}
-	if len(params) == 2 {
-		c.Check("R2.wake", "readSomeAt/args", as.Pos(), pat.Same(info, binds["_b"], params[0]) && pat.Same(info, binds["_rpos"], params[1]),
-			"readSomeAt hands its own buffer and offset to the store unchanged")
-	}
-	waits := g.Points(func(n ast.Node) bool { return has(condCalls(info, n, "Wait"), "rwait") })
-	c.Check("R2.wake", "readSomeAt/one-wait", fn.Decl.Pos(), len(waits) == 1,
-		fmt.Sprintf("readSomeAt must contain exactly one rwait.Wait() (found %d): a read at the write position has to sleep until the writer broadcasts", len(waits)))
-	for _, wp := range waits {
-		wn := wp.Node()
-		w1 := g.Path(cfgq.Query{From: g.Entry(), Target: func(n ast.Node) bool { return n == wn },
-			AvoidEdge: func(b *cfg.Block, s int) bool { return noProgressEdge(g, info, b, s, binds) }})
-		c.Check("R2.wake", "readSomeAt/wait-only-without-progress", wn.Pos(), w1 == nil,
-			"Wait must be reachable only when the store returned no bytes and no error (o equals the write position)", w1...)
-		dom, w2 := g.Dominated(wp, func(n ast.Node) bool { return n == ast.Node(as) })
-		c.Check("R2.wake", "readSomeAt/wait-after-store-attempt", wn.Pos(), dom, "the store read must be attempted before sleeping", w2...)
-		c.Check("R2.wake", "readSomeAt/return-after-wait", wn.Pos(), ring.AfterWaitReturnsZero(info, wp, binds),
-			"after Wait the function returns (0, nil) so that ReadAt re-examines the state (including a close) under the lock")
-	}
-	// closed backlog: store == nil => ErrClosedBacklog before anything else
-	sp, _ := g.Find(as)
-	ok, w := g.OnlyViaFact(sp, func(f cfgq.Fact) bool {
-		return pat.Expr("_p.store != nil").Match(info, f.Expr, nil) != nil && f.Val || pat.Expr("_p.store == nil").Match(info, f.Expr, nil) != nil && !f.Val
-	})
-	c.Check("R2.wake", "readSomeAt/store-open-before-read", as.Pos(), ok, "the store is consulted only after it was found non-nil", w...)
-	// ReadAt retries after a wake-up
-	if ra := c.Func(pkg, "Backlog", "ReadAt"); ra != nil {
-		var bufObj types.Object
-		if ps := ra.Decl.Type.Params; ps != nil && len(ps.List) > 0 && len(ps.List[0].Names) > 0 {
-			bufObj = info.Defs[ps.List[0].Names[0]]
+	storeVar := fieldVar(c, "Backlog", "store")
+	var args, noProg, after, retZero, open verdict
+	sites := map[token.Pos]bool{}
+	twice := false
+	for _, t := range res.Traces {
+		s := t.First(func(e *ring.Event) bool { return ring.IsFieldCall(e, "store", "readSomeAt") })
+		if s != nil {
+			okArgs := len(res.Params) == 2 && len(s.Args) == 2 && s.Args[0].Key() == res.Params[0].Key() && s.Args[1].Key() == res.Params[1].Key()
+			args.add(t, s.Pos, okArgs)
+			open.add(t, s.Pos, t.FactsAt(s).NonNil(s.FieldNow(res.Recv, storeVar)))
 		}
-		n, w := ring.RetriesOnWake(cfgq.Of(c.Program, ra), fn.Obj, bufObj)
-		if n == 0 {
-			c.Undecidedf("R2.wake", "ReadAt/loops", ra.Decl.Pos(), "ReadAt does not call readSomeAt")
-		} else {
-			c.Check("R2.wake", "ReadAt/loops", ra.Decl.Pos(), w == nil, "ReadAt must call readSomeAt again after a wake-up (which returns (0,nil)) unless the buffer is empty; otherwise a reader parked at the write position sees a spurious (0,nil)", w...)
+		ws := t.Find(func(e *ring.Event) bool { return ring.IsCondOp(e, "rwait", "Wait") })
+		if len(ws) > 1 {
+			twice = true
+		}
+		for _, w := range ws {
+			sites[w.Pos] = true
+			before := s != nil && s.Index < w.Index
+			after.add(t, w.Pos, before)
+			noProg.add(t, w.Pos, before && ring.NoProgress(t.FactsAt(w), s))
+			okRet := t.Normal() && len(t.Results) == 2 && t.Facts.IsZero(t.Results[0]) && t.Facts.IsNil(t.Results[1])
+			for _, e := range t.Events[w.Index+1:] {
+				switch e.Kind {
+				case ring.EvStore:
+					okRet = false
+				case ring.EvCall:
+					if !e.Deferred && !isUnlock(e) {
+						okRet = false
+					}
+				}
+			}
+			if t.Exit == ring.ExitReturn || t.Exit == ring.ExitPanic {
+				retZero.add(t, w.Pos, okRet)
+			}
 		}
 	}
+	if !args.seen {
+		c.Undecidedf("R2.wake", "readSomeAt/store-call", fn.Decl.Pos(), "no path of readSomeAt calls bl.store.readSomeAt")
+		return res
+	}
+	args.report(c, "R2.wake", "readSomeAt/args", fn.Decl.Pos(), "readSomeAt hands its own buffer and offset to the store unchanged")
+	c.Check("R2.wake", "readSomeAt/one-wait", fn.Decl.Pos(), len(sites) == 1 && !twice,
+		fmt.Sprintf("readSomeAt must contain exactly one rwait.Wait() (found %d): a read at the write position has to sleep until the writer broadcasts", len(sites)))
+	if noProg.seen {
+		noProg.report(c, "R2.wake", "readSomeAt/wait-only-without-progress", fn.Decl.Pos(), "Wait must be reachable only when the store returned no bytes and no error (o equals the write position)")
+		after.report(c, "R2.wake", "readSomeAt/wait-after-store-attempt", fn.Decl.Pos(), "the store read must be attempted before sleeping")
+		retZero.report(c, "R2.wake", "readSomeAt/return-after-wait", fn.Decl.Pos(), "after Wait the function returns (0, nil) so that ReadAt re-examines the state (including a close) under the lock")
+	}
+	open.report(c, "R2.wake", "readSomeAt/store-open-before-read", fn.Decl.Pos(), "the store is consulted only after it was found non-nil")
+	// callers retry after a wake-up
+	vs := ring.RetriesOnWake(c, pkg, fn.Obj)
+	for _, v := range vs {
+		key := v.Fn.Decl.Name.Name + "/loops"
+		msg := "ReadAt must call readSomeAt again after a wake-up (which returns (0,nil)) unless the buffer is empty; otherwise a reader parked at the write position sees a spurious (0,nil)"
+		switch v.Status {
+		case 1:
+			c.Okf("R2.wake", key, v.Fn.Decl.Pos(), "%s", msg)
+		case 0:
+			c.Check("R2.wake", key, v.Fn.Decl.Pos(), false, msg, v.Witness...)
+		default:
+			c.Undecidedf("R2.wake", key, v.Fn.Decl.Pos(), "%s: %s", msg, v.Why)
+		}
+	}
+	if len(vs) == 0 {
+		c.Undecidedf("R2.wake", "ReadAt/loops", fn.Decl.Pos(), "no caller of readSomeAt found")
+	}
+	return res
 }
 
 func r2close(c *core.Ctx, fn *core.Fn) {
-	info := fn.Pkg.TypesInfo
-	g := cfgq.Of(c.Program, fn)
-	ok, w := g.MustPassToExit(g.Entry(), false, func(n ast.Node) bool { return has(condCalls(info, n, "Broadcast"), "rwait") })
-	c.Check("R2.wake", "CloseWithError/broadcast", fn.Decl.Pos(), ok, "CloseWithError must Broadcast on rwait on every path: closing wakes every waiting reader", w...)
-	// the store is closed whenever it is non-nil
-	closeCall := g.HasCall(func(call *ast.CallExpr, _ types.Object) bool {
-		return pat.Expr("_p.store.close()").Match(info, call, nil) != nil
-	})
-	w2 := g.Path(cfgq.Query{From: g.Entry(), Avoid: closeCall, TargetExit: cfgq.NormalExit,
-		AvoidEdge: func(b *cfg.Block, s int) bool {
-			return g.Establishes(b, s, func(f cfgq.Fact) bool {
-				return pat.Expr("_p.store == nil").Match(info, f.Expr, nil) != nil && f.Val || pat.Expr("_p.store != nil").Match(info, f.Expr, nil) != nil && !f.Val
-			})
-		}})
-	c.Check("R2.wake", "CloseWithError/closes-store", fn.Decl.Pos(), w2 == nil,
-		"CloseWithError closes the store on every path where one exists: woken readers then fail with ErrClosedBacklog instead of sleeping again", w2...)
-	// broadcast happens with the close already decided: Broadcast precedes or follows is irrelevant under the lock; but
+	res := ring.RunSym(c, fn, &ring.Sym{})
+	if ok, why := res.Usable(); !ok {
+		c.Undecidedf("R2.wake", "CloseWithError/broadcast", fn.Decl.Pos(), "%s", why)
+		return
+	}
+	storeVar := fieldVar(c, "Backlog", "store")
+	var bcast, closes verdict
+	for _, t := range res.Traces {
+		if !t.Normal() {
+			continue
+		}
+		bcast.add(t, fn.Decl.Pos(), t.First(func(e *ring.Event) bool { return ring.IsCondOp(e, "rwait", "Broadcast") }) != nil)
+		closed := t.First(func(e *ring.Event) bool { return ring.IsFieldCall(e, "store", "close") }) != nil
+		closes.add(t, fn.Decl.Pos(), closed || t.Facts.IsNil(ring.FieldAtEntry(res.Recv, storeVar)))
+	}
+	bcast.report(c, "R2.wake", "CloseWithError/broadcast", fn.Decl.Pos(), "CloseWithError must Broadcast on rwait on every path: closing wakes every waiting reader")
+	closes.report(c, "R2.wake", "CloseWithError/closes-store", fn.Decl.Pos(),
+		"CloseWithError closes the store on every path where one exists: woken readers then fail with ErrClosedBacklog instead of sleeping again")
 	// Close() must delegate here
 	if cl := c.FuncOpt(pkg, "Backlog", "Close"); cl != nil {
-		n, _ := pat.Stmt("return _p.CloseWithError(nil)").Find(info, cl.Decl.Body, nil)
-		c.Check("R2.wake", "Close/delegates", cl.Decl.Pos(), n != nil, "Close() is CloseWithError(nil)")
+		cres := ring.RunSym(c, cl, &ring.Sym{Opaque: func(f *types.Func) bool { return f.Origin() == fn.Obj.Origin() }})
+		if ok, why := cres.Usable(); !ok {
+			c.Undecidedf("R2.wake", "Close/delegates", cl.Decl.Pos(), "%s", why)
+		} else {
+			var del verdict
+			for _, t := range cres.Traces {
+				if !t.Normal() {
+					continue
+				}
+				ev := t.First(func(e *ring.Event) bool { return ring.IsCallOf(e, fn.Obj) })
+				del.add(t, cl.Decl.Pos(), ev != nil && len(ev.Args) == 1 && t.FactsAt(ev).IsNil(ev.Args[0]) && len(t.Results) == 1 && t.Results[0].IsResultOf(ev, 0))
+			}
+			del.report(c, "R2.wake", "Close/delegates", cl.Decl.Pos(), "Close() is CloseWithError(nil)")
+		}
 	}
 }
 
-func stores(c *core.Ctx, tn string) {
+func stores(c *core.Ctx, named *types.Named) {
+	tn := named.Obj().Name()
+	backing := ring.BackingField(named)
+	tri := func(rule, key string, pos token.Pos, v int, why, msg string) {
+		switch v {
+		case 1:
+			c.Okf(rule, key, pos, "%s", msg)
+		case 0:
+			c.Failf(rule, key, pos, "%s; %s", msg, why)
+		default:
+			c.Undecidedf(rule, key, pos, "%s: %s", msg, why)
+		}
+	}
 	// readSomeAt
 	if fn := c.Func(pkg, tn, "readSomeAt"); fn != nil {
 		info := fn.Pkg.TypesInfo
@@ -349,38 +439,32 @@ func stores(c *core.Ctx, tn string) {
 							cmp, ok := lin.CmpOf(info, f.Expr, f.Val)
 							return ok && cmp.Is(fact.form, token.LEQ)
 						})
+						if !okv {
+							// the same question on the traces (validity computed into locals, compared in a helper ...)
+							okv = validOnTraces(c, fn, fact.key)
+						}
 						c.Check("R3.valid", tn+".readSomeAt/"+fact.key+"/"+p.what, p.site.At.Node().Pos(), okv,
 							"an offset that is "+fact.key+" must be rejected before any byte is read: otherwise other bytes than those written at that offset are returned")
 					}
 				}
 			}
 		}
-		inv := false
-		core.Inspect(body, func(n ast.Node) bool {
-			if ret, ok := n.(*ast.ReturnStmt); ok && len(ret.Results) == 2 {
-				core.Inspect(ret.Results[1], func(m ast.Node) bool {
-					if id, ok := m.(*ast.Ident); ok && id.Name == "ErrInvalidOffset" {
-						inv = true
-					}
-					return true
-				})
+		sres := ring.RunSym(c, fn, &ring.Sym{Opaque: ring.OpaqueOffsets})
+		// the rejection reports ErrInvalidOffset
+		if ok, why := sres.Usable(); !ok {
+			c.Undecidedf("R3.valid", tn+".readSomeAt/invalid-offset-error", fn.Decl.Pos(), "%s", why)
+		} else {
+			inv := false
+			for _, t := range sres.Traces {
+				if t.Normal() && len(t.Results) == 2 && t.Results[1].Unwrap().IsGlobal("backlog", "ErrInvalidOffset") && t.Facts.IsZero(t.Results[0]) {
+					inv = true
+				}
 			}
-			return true
-		})
-		if !inv {
-			// the rejection may live in a helper
-			for _, h := range helpersOf(c, fn) {
-				core.Inspect(h.Decl.Body, func(m ast.Node) bool {
-					if id, ok := m.(*ast.Ident); ok && id.Name == "ErrInvalidOffset" {
-						inv = true
-					}
-					return true
-				})
-			}
+			c.Check("R3.valid", tn+".readSomeAt/invalid-offset-error", fn.Decl.Pos(), inv, "the rejection reports ErrInvalidOffset")
 		}
-		c.Check("R3.valid", tn+".readSomeAt/invalid-offset-error", fn.Decl.Pos(), inv, "the rejection reports ErrInvalidOffset")
-		c.Check("R3.valid", tn+".readSomeAt/closed-store", fn.Decl.Pos(), closedGuard(info, body), "a nil backing store yields ErrClosedBacklog first")
-		switch v, why := ring.ZeroGuard(c, res); v {
+		v, why := ring.ClosedGuard(sres, backing, "backlog", "ErrClosedBacklog")
+		tri("R3.valid", tn+".readSomeAt/closed-store", fn.Decl.Pos(), v, why, "a nil backing store yields ErrClosedBacklog first")
+		switch v, why := ring.ZeroWindow(sres, "roffset"); v {
 		case 1:
 			c.Okf("R5.sibling", tn+".readSomeAt/empty-returns-zero", fn.Decl.Pos(), "nothing to read yields (0, nil)")
 		case 0:
@@ -390,347 +474,330 @@ func stores(c *core.Ctx, tn string) {
 		}
 	}
 	if fn := c.Func(pkg, tn, "writeSome"); fn != nil {
-		info := fn.Pkg.TypesInfo
-		body := fn.Decl.Body
 		ring.Transfer(c, fn, ring.TransferSpec{Rule: "R5.sibling", Key: tn + ".writeSome", OffsetFn: "woffset",
-			Args: []string{"len(_b)", "_p.size", "_p.wpos"}, ArgsDesc: "woffset(len(b), p.size, p.wpos)", Read: false, Advance: "wpos",
-			ArgsKey: "woffset-args", WindowKey: "transfer-window", AdvKey: "advance-wpos",
-			WindowMsg: "the bytes go to exactly [offset, offset+maxlen) of the backing store from the front of the caller's buffer",
-			AdvMsg:    "wpos advances by exactly the number of bytes stored (absolute offsets stay aligned with ring positions)"})
-		c.Check("R5.sibling", tn+".writeSome/closed-store", fn.Decl.Pos(), closedGuard(info, body), "a nil backing store yields ErrClosedBacklog")
+			Args: []string{"len(_b)", "_p.size", "_p.wpos"}, ArgsDesc: "woffset(len(b), p.size, p.wpos)", Read: false,
+			ArgsKey: "woffset-args", WindowKey: "transfer-window",
+			WindowMsg: "the bytes go to exactly [offset, offset+maxlen) of the backing store from the front of the caller's buffer"})
+		sres := ring.RunSym(c, fn, &ring.Sym{Opaque: ring.OpaqueOffsets})
+		av, awhy := ring.WriteEndState(sres, "wpos")
+		tri("R5.sibling", tn+".writeSome/advance-wpos", fn.Decl.Pos(), av, awhy, "wpos advances by exactly the number of bytes stored (absolute offsets stay aligned with ring positions)")
+		v, why := ring.ClosedGuard(sres, backing, "backlog", "ErrClosedBacklog")
+		tri("R5.sibling", tn+".writeSome/closed-store", fn.Decl.Pos(), v, why, "a nil backing store yields ErrClosedBacklog")
 	}
 	if fn := c.Func(pkg, tn, "dataRange"); fn != nil {
-		dataRange(c, tn, fn)
+		dataRange(c, tn, fn, backing)
 	}
 	if fn := c.Func(pkg, tn, "close"); fn != nil {
-		n, _ := pat.Stmt("_p._store = nil").Find(fn.Pkg.TypesInfo, fn.Decl.Body, nil)
-		c.Check("R5.sibling", tn+".close/drops-store", fn.Decl.Pos(), n != nil, "close drops the backing store so that readers woken by the close fail with ErrClosedBacklog")
+		sres := ring.RunSym(c, fn, &ring.Sym{})
+		v, why := ring.DropsBacking(sres, backing)
+		tri("R5.sibling", tn+".close/drops-store", fn.Decl.Pos(), v, why, "close drops the backing store so that readers woken by the close fail with ErrClosedBacklog")
 	}
 }
 
-// dataRange checks R4 for one store. Accepted shapes (in the method itself or
-// in a same-package helper it returns through, with the helper's parameters
-// bound to the arguments):
-//
-//	two returns:   if wpos >= size { return wpos - size, wpos }; return 0, wpos
-//	one return:    r := 0; if wpos >= size { r = wpos - size }; return r, wpos
-func dataRange(c *core.Ctx, tn string, fn *core.Fn) {
-	info := fn.Pkg.TypesInfo
+// validOnTraces answers R3 on the traces of readSomeAt: wherever bytes are
+// moved, the facts of the path imply rpos <= wpos ("beyond-write-position") /
+// wpos <= rpos + size ("overwritten").
+func validOnTraces(c *core.Ctx, fn *core.Fn, which string) bool {
+	res := ring.RunSym(c, fn, &ring.Sym{})
+	if ok, _ := res.Usable(); !ok || len(res.Params) != 2 || res.Recv == nil {
+		return false
+	}
+	wpos := ring.FieldAtEntry(res.Recv, ring.FieldOf(res.Recv, "wpos"))
+	size := ring.FieldAtEntry(res.Recv, ring.FieldOf(res.Recv, "size"))
+	if wpos == nil || size == nil {
+		return false
+	}
+	rpos := res.Params[1]
+	var want *ring.Val
+	if which == "beyond-write-position" {
+		want = ring.VCmp(token.LEQ, rpos, wpos)
+	} else {
+		want = ring.VCmp(token.LEQ, wpos, ring.VAdd(rpos, size))
+	}
+	seen := false
+	for _, t := range res.Traces {
+		for _, e := range t.Events {
+			if ring.IsTransfer(e) {
+				seen = true
+				if !t.FactsAt(e).Holds(want) {
+					return false
+				}
+			}
+		}
+	}
+	return seen
+}
+
+// dataRange checks R4 for one store on the traces of the method (helpers
+// inlined): every path returns (0, 0) for a closed store, (wpos-size, wpos)
+// where wpos >= size has been established, or (0, wpos) where wpos < size has.
+func dataRange(c *core.Ctx, tn string, fn *core.Fn, backing *types.Var) {
 	key := tn + ".dataRange"
-	type target struct {
-		fn   *core.Fn
-		g    *cfgq.Graph
-		sub  map[types.Object]ast.Expr
-		name string
+	res := ring.RunSym(c, fn, &ring.Sym{})
+	if ok, why := res.Usable(); !ok {
+		c.Undecidedf("R4.range", key+"/returns", fn.Decl.Pos(), "%s", why)
+		return
 	}
-	tg := target{fn: fn, g: cfgq.Of(c.Program, fn), name: "dataRange"}
-	// follow `return helper(args...)`
-	for _, p := range tg.g.Points(func(n ast.Node) bool { _, ok := n.(*ast.ReturnStmt); return ok }) {
-		ret := p.Node().(*ast.ReturnStmt)
-		if len(ret.Results) != 1 {
-			continue
-		}
-		call, ok := ast.Unparen(ret.Results[0]).(*ast.CallExpr)
-		if !ok {
-			continue
-		}
-		f := core.CalleeFunc(info, call)
-		if f == nil || f.Pkg() == nil || f.Pkg().Path() != fn.Pkg.PkgPath {
-			continue
-		}
-		h := c.FnOf(f)
-		if h == nil || h.Decl.Body == nil {
-			continue
-		}
-		sub := map[types.Object]ast.Expr{}
-		i := 0
-		for _, fl := range h.Decl.Type.Params.List {
-			for _, nm := range fl.Names {
-				if i < len(call.Args) {
-					sub[info.Defs[nm]] = call.Args[i]
-				}
-				i++
-			}
-		}
-		tg = target{fn: h, g: cfgq.Of(c.Program, h), sub: sub, name: h.Decl.Name.Name}
+	wpos := ring.FieldAtEntry(res.Recv, ring.FieldOf(res.Recv, "wpos"))
+	size := ring.FieldAtEntry(res.Recv, ring.FieldOf(res.Recv, "size"))
+	if wpos == nil || size == nil {
+		c.Undecidedf("R4.range", key+"/returns", fn.Decl.Pos(), "fields wpos/size not found")
+		return
 	}
-	S := func(e ast.Expr) ast.Expr { return cfgq.Substitute(info, e, tg.sub) }
-	ge := func(val bool) func(cfgq.Fact) bool {
-		return func(f cfgq.Fact) bool {
-			e := S(f.Expr)
-			return pat.Expr("_p.wpos >= _p.size").Match(info, e, nil) != nil && f.Val == val || pat.Expr("_p.wpos < _p.size").Match(info, e, nil) != nil && f.Val != val
-		}
+	var b0 *ring.Val
+	if backing != nil {
+		b0 = ring.FieldAtEntry(res.Recv, backing)
 	}
-	isFull := func(e ast.Expr) bool { return pat.Expr("_p.wpos - _p.size").Match(info, S(e), nil) != nil }
-	isW := func(e ast.Expr) bool { return pat.Expr("_p.wpos").Match(info, S(e), nil) != nil }
-	isZero := func(e ast.Expr) bool { v, ok := core.IntConst(info, e); return ok && v == 0 }
-	g := tg.g
-	nFull, nPart, nOther := 0, 0, 0
-	okGuards := true
-	var witness []string
-	for _, p := range g.Points(func(n ast.Node) bool { _, ok := n.(*ast.ReturnStmt); return ok }) {
-		ret := p.Node().(*ast.ReturnStmt)
-		if len(ret.Results) != 2 {
-			if len(ret.Results) == 1 && tg.fn == fn {
-				continue // the delegating return itself
-			}
-			nOther++
+	nFull, nPart := 0, 0
+	other, wrong := "", ""
+	var guards verdict
+	for _, t := range res.Traces {
+		if !t.Normal() {
 			continue
 		}
-		a, b := ret.Results[0], ret.Results[1]
+		if len(t.Results) != 2 {
+			other = "unexpected result count"
+			continue
+		}
+		a, b := t.Results[0], t.Results[1]
 		switch {
-		case isZero(a) && isZero(b):
+		case b0 != nil && t.Facts.IsNil(b0) && t.Facts.IsZero(a) && t.Facts.IsZero(b):
 			// closed store
-		case isFull(a) && isW(b):
+		case ring.LinEqual(a, ring.VSub(wpos, size)) && ring.LinEqual(b, wpos):
 			nFull++
-			ok, w := g.OnlyViaFact(p, ge(true))
-			if !ok {
-				okGuards, witness = false, w
-			}
-		case isZero(a) && isW(b):
+			guards.add(t, t.RetPos, t.Facts.Holds(ring.VCmp(token.GEQ, wpos, size)))
+		case t.Facts.IsZero(a) && ring.LinEqual(b, wpos):
 			nPart++
-			ok, w := g.OnlyViaFact(p, ge(false))
-			if !ok {
-				okGuards, witness = false, w
-			}
-		case isW(b):
-			// one-return shape: a is a local r with `r := 0` and `r = wpos - size` under wpos >= size
-			id, ok := ast.Unparen(a).(*ast.Ident)
-			if !ok {
-				nOther++
-				continue
-			}
-			obj := core.ObjOf(info, id)
-			okInit, okSet := false, false
-			ast.Inspect(tg.fn.Decl.Body, func(n ast.Node) bool {
-				switch x := n.(type) {
-				case *ast.AssignStmt:
-					for i, l := range x.Lhs {
-						lid, ok := l.(*ast.Ident)
-						if !ok || core.ObjOf(info, lid) != obj || i >= len(x.Rhs) {
-							continue
-						}
-						r := ast.Unparen(x.Rhs[i])
-						if cv, ok := r.(*ast.CallExpr); ok && len(cv.Args) == 1 { // uint64(0)
-							r = ast.Unparen(cv.Args[0])
-						}
-						if isZero(r) {
-							okInit = true
-						} else if isFull(r) {
-							if pt, ok := g.Find(x); ok {
-								if okv, _ := g.OnlyViaFact(pt, ge(true)); okv {
-									okSet = true
-								}
-							}
-						} else {
-							okSet = false
-							nOther++
-						}
-					}
-				case *ast.ValueSpec:
-					for _, nm := range x.Names {
-						if info.Defs[nm] == obj && len(x.Values) == 0 {
-							okInit = true // var r uint64
-						}
-					}
-				}
-				return true
-			})
-			if okInit && okSet {
-				nFull++
-				nPart++
-			} else {
-				nOther++
-			}
+			// at wpos == size both forms agree (wpos-size == 0)
+			guards.add(t, t.RetPos, t.Facts.Holds(ring.VCmp(token.LEQ, wpos, size)))
 		default:
-			nOther++
+			d := "(" + a.Key() + ", " + b.Key() + ")"
+			if ring.OnlyFields(a) && ring.OnlyFields(b) {
+				wrong = d
+			} else {
+				other = d
+			}
 		}
 	}
 	switch {
-	case nOther > 0:
-		c.Undecidedf("R4.range", key+"/returns", fn.Decl.Pos(), "%s has a return this rule does not recognise", tg.name)
+	case wrong != "":
+		c.Failf("R4.range", key+"/returns", fn.Decl.Pos(), "dataRange must yield (wpos-size, wpos) once wpos >= size and (0, wpos) before: the most recent min(total, capacity) bytes; a path returns %s", wrong)
+	case other != "":
+		c.Undecidedf("R4.range", key+"/returns", fn.Decl.Pos(), "dataRange has a return this rule does not recognise: %s", other)
 	case nFull == 0 || nPart == 0:
 		c.Check("R4.range", key+"/returns", fn.Decl.Pos(), false, "dataRange must yield (wpos-size, wpos) once wpos >= size and (0, wpos) before: the most recent min(total, capacity) bytes")
 	default:
 		c.Okf("R4.range", key+"/returns", fn.Decl.Pos(), "dataRange yields (wpos-size, wpos) and (0, wpos)")
-		c.Check("R4.range", key+"/guards", fn.Decl.Pos(), okGuards, "(wpos-size, wpos) only when wpos >= size (otherwise the subtraction wraps around), (0, wpos) only while wpos < size (afterwards the oldest bytes are gone)", witness...)
+		guards.report(c, "R4.range", key+"/guards", fn.Decl.Pos(), "(wpos-size, wpos) only when wpos >= size (otherwise the subtraction wraps around), (0, wpos) only while wpos <= size (afterwards the oldest bytes are gone)")
 	}
 }
 
 func reader(c *core.Ctx) {
-	if fn := c.Func(pkg, "Reader", "IsValid"); fn != nil {
-		info := fn.Pkg.TypesInfo
-		body := fn.Decl.Body
-		// the data range in use: `lo, hi, err := <reader or backlog>.DataRange()`
-		var lo, hi, errID *ast.Ident
-		core.Inspect(body, func(n ast.Node) bool {
-			as, ok := n.(*ast.AssignStmt)
-			if !ok || len(as.Lhs) != 3 || len(as.Rhs) != 1 || lo != nil {
-				return true
-			}
-			call, ok := ast.Unparen(as.Rhs[0]).(*ast.CallExpr)
-			if !ok {
-				return true
-			}
-			if f := core.CalleeFunc(info, call); f != nil && f.Name() == "DataRange" && f.Pkg() == fn.Obj.Pkg() {
-				a, ok1 := as.Lhs[0].(*ast.Ident)
-				b, ok2 := as.Lhs[1].(*ast.Ident)
-				e, ok3 := as.Lhs[2].(*ast.Ident)
-				if ok1 && ok2 && ok3 {
-					lo, hi, errID = a, b, e
-				}
-			}
-			return true
-		})
-		var seek ast.Expr
-		core.Inspect(body, func(n ast.Node) bool {
-			if sel, ok := n.(*ast.SelectorExpr); ok && seek == nil && core.IsFieldNamed(info, sel, "Reader", "seek") {
-				seek = sel
-			}
-			return true
-		})
-		if lo == nil || seek == nil {
-			c.Undecidedf("R4.range", "Reader.IsValid/formula", fn.Decl.Pos(), "IsValid does not obtain (rpos, wpos, err) from DataRange() and compare the reader's seek with it in a recognisable way")
-		} else {
-			errObj := core.ObjOf(info, errID)
-			loLeq := lin.Combo(info, 0, 1, lo, -1, seek) // rpos - seek <= 0
-			hiGeq := lin.Combo(info, 0, 1, seek, -1, hi) // seek - wpos <= 0
-			otherRelation := ""
-			sameVars := func(a, b lin.Form) bool {
-				if len(a.Coef) != len(b.Coef) {
-					return false
-				}
-				for k, v := range a.Coef {
-					if w, ok := b.Coef[k]; !ok || (w != v && w != -v) {
-						return false
-					}
-				}
-				return true
-			}
-			atom := func(x ast.Expr) (int, bool, bool) {
-				if isNil, ok := ring.ErrNilAtom(info, x, errObj); ok {
-					return 0, !isNil, true
-				}
-				defer func() {
-					if cmp, ok := lin.CmpOf(info, x, true); ok && otherRelation == "" {
-						for _, f := range []lin.Form{loLeq, hiGeq} {
-							if sameVars(cmp.F, f) && !cmp.Is(f, token.LEQ) {
-								if neg, ok2 := lin.CmpOf(info, x, false); !ok2 || !neg.Is(f, token.LEQ) {
-									otherRelation = c.Src(x)
-								}
-							}
-						}
-					}
-				}()
-				for i, f := range []lin.Form{loLeq, hiGeq} {
-					if cmp, ok := lin.CmpOf(info, x, true); ok && cmp.Is(f, token.LEQ) {
-						return i + 1, false, true
-					}
-					if cmp, ok := lin.CmpOf(info, x, false); ok && cmp.Is(f, token.LEQ) {
-						return i + 1, true, true
-					}
-				}
-				return 0, false, false
-			}
-			table := ring.TruthTable(cfgq.Of(c.Program, fn), 3, atom)
-			okFormula, okClosed, undec := true, true, false
-			for m, v := range table {
-				errNil, ge, le := m&1 != 0, m&2 != 0, m&4 != 0
-				if v < 0 {
-					// with a non-nil error the range values are meaningless: the comparison atoms need not be decided
-					undec = true
-					continue
-				}
-				want := errNil && ge && le
-				if (v == 1) != want {
-					if !errNil {
-						okClosed = false
-					} else {
-						okFormula = false
-					}
-				}
-			}
-			if otherRelation != "" {
-				c.Failf("R4.range", "Reader.IsValid/formula", fn.Decl.Pos(), "a reader is valid exactly while rpos <= seek <= wpos of the current data range; IsValid tests `%s`, which is neither of these bounds (a reader exactly at a bound is judged wrongly)", otherRelation)
-			} else if undec {
-				c.Undecidedf("R4.range", "Reader.IsValid/formula", fn.Decl.Pos(), "IsValid depends on something else than err == nil, rpos <= seek and seek <= wpos")
-			} else {
-				c.Check("R4.range", "Reader.IsValid/formula", fn.Decl.Pos(), okFormula, "a reader is valid exactly while rpos <= seek <= wpos of the current data range")
-				c.Check("R4.range", "Reader.IsValid/closed-is-invalid", fn.Decl.Pos(), okClosed, "a closed backlog makes every reader invalid")
-			}
-		}
+	dr := c.Func(pkg, "Backlog", "DataRange")
+	if fn := c.Func(pkg, "Reader", "IsValid"); fn != nil && dr != nil {
+		isValid(c, fn, dr)
 	}
 	if fn := c.Func(pkg, "Reader", "Read"); fn != nil {
-		info := fn.Pkg.TypesInfo
-		as, b := pat.Stmt("_n, _err = _r.bl.ReadAt(_b, _r.seek)").Find(info, fn.Decl.Body, nil)
-		ok := false
-		if as != nil {
-			adv, _ := pat.Stmt("_r.seek += uint64(_n)").Find(info, fn.Decl.Body, b)
-			ret, _ := pat.Stmt("return _n, _err").Find(info, fn.Decl.Body, b)
-			ok = adv != nil && ret != nil
-		}
-		c.Check("R4.range", "Reader.Read/advance", fn.Decl.Pos(), ok, "Reader.Read reads at its own position, advances it by exactly the count returned and returns that count")
+		readerRead(c, fn)
 	}
 	if fn := c.Func(pkg, "Backlog", "NewReader"); fn != nil {
-		info := fn.Pkg.TypesInfo
-		as, b := pat.Stmt("_, _wpos = _p.store.dataRange()").Find(info, fn.Decl.Body, nil)
-		ok := false
-		if as != nil {
-			n, _ := pat.Stmt("return &Reader{bl: _p, seek: _wpos}, nil").Find(info, fn.Decl.Body, b)
-			ok = n != nil
-		}
-		c.Check("R4.range", "NewReader/starts-at-wpos", fn.Decl.Pos(), ok, "a new reader starts at the current write position of this backlog")
+		newReader(c, fn)
 	}
-	if fn := c.Func(pkg, "Backlog", "DataRange"); fn != nil {
-		info := fn.Pkg.TypesInfo
-		as, b := pat.Stmt("_rpos, _wpos = _p.store.dataRange()").Find(info, fn.Decl.Body, nil)
-		ok := false
-		if as != nil {
-			n, _ := pat.Stmt("return _rpos, _wpos, nil").Find(info, fn.Decl.Body, b)
-			ok = n != nil
-		}
-		c.Check("R4.range", "Backlog.DataRange/forwards", fn.Decl.Pos(), ok, "DataRange reports the store's range in (rpos, wpos) order")
+	if dr != nil {
+		forwards(c, dr)
 	}
 }
 
-func findIf(info *types.Info, root ast.Node, cond *pat.Pattern, b pat.Binds) (*ast.IfStmt, bool) {
-	var hit *ast.IfStmt
-	core.Inspect(root, func(n ast.Node) bool {
-		if ifs, ok := n.(*ast.IfStmt); ok && hit == nil && cond.Match(info, ifs.Cond, b) != nil {
-			hit = ifs
-		}
-		return hit == nil
-	})
-	return hit, hit != nil
-}
-
-func closedGuard(info *types.Info, body *ast.BlockStmt) bool {
-	if len(body.List) == 0 {
-		return false
-	}
-	ifs, ok := body.List[0].(*ast.IfStmt)
-	if !ok || pat.Expr("_p._s == nil").Match(info, ifs.Cond, nil) == nil {
-		return false
-	}
-	r, _ := pat.Stmt("return 0, _f(ErrClosedBacklog)").Find(info, ifs.Body, nil)
-	return r != nil
-}
-
-// helpersOf lists the same-package functions called from fn (one level).
-func helpersOf(c *core.Ctx, fn *core.Fn) []*core.Fn {
-	info := fn.Pkg.TypesInfo
-	var out []*core.Fn
-	seen := map[*types.Func]bool{}
-	core.Inspect(fn.Decl.Body, func(n ast.Node) bool {
-		if call, ok := n.(*ast.CallExpr); ok {
-			if f := core.CalleeFunc(info, call); f != nil && f.Pkg() == fn.Obj.Pkg() && !seen[f] {
-				seen[f] = true
-				if h := c.FnOf(f); h != nil && h.Decl.Body != nil {
-					out = append(out, h)
+// isValid: the truth table of Reader.IsValid over the order of the reader's
+// position relative to the two ends of the data range (each of <, ==, >) and
+// err == nil / != nil: 18 cases, each decided by the path engine with the case
+// injected as facts after the DataRange call. Valid exactly when err == nil
+// and rpos <= seek <= wpos.
+func isValid(c *core.Ctx, fn, dr *core.Fn) {
+	seekVar := fieldVar(c, "Reader", "seek")
+	rel := []token.Token{token.LSS, token.EQL, token.GTR}
+	okFormula, okClosed := true, true
+	undec, wrongCase := "", ""
+	for _, errNil := range []bool{true, false} {
+		for _, lo := range rel { // rpos <lo> seek
+			for _, hi := range rel { // seek <hi> wpos
+				errNil, lo, hi := errNil, lo, hi
+				found := false
+				res := ring.RunSym(c, fn, &ring.Sym{
+					Opaque: func(f *types.Func) bool { return f.Origin() == dr.Obj.Origin() },
+					OnCall: func(st *ring.State, ev *ring.Event) {
+						if !ring.IsCallOf(ev, dr.Obj) || len(ev.Results) != 3 {
+							return
+						}
+						found = true
+						seek := ev.FieldNow(ringRecv(st), seekVar)
+						st.Assume(ring.VCmp(token.EQL, ev.Results[2], ring.VNilV()), errNil)
+						st.Assume(ring.VCmp(lo, ev.Results[0], seek), true)
+						st.Assume(ring.VCmp(hi, seek, ev.Results[1]), true)
+					},
+				})
+				if ok, why := res.Usable(); !ok {
+					undec = why
+					continue
+				}
+				if !found {
+					undec = "IsValid does not obtain (rpos, wpos, err) from Backlog.DataRange()"
+					continue
+				}
+				want := errNil && lo != token.GTR && hi != token.GTR
+				for _, t := range res.Traces {
+					if !t.Normal() || len(t.Results) != 1 {
+						continue
+					}
+					v, known := t.Facts.Decide(t.Results[0])
+					if !known {
+						undec = "IsValid depends on something else than err == nil, rpos <= seek and seek <= wpos: " + t.Results[0].Key()
+						continue
+					}
+					if v != want {
+						if !errNil {
+							okClosed = false
+						} else {
+							okFormula = false
+							wrongCase = fmt.Sprintf("rpos %s seek, seek %s wpos -> %v", lo, hi, v)
+						}
+					}
 				}
 			}
 		}
-		return true
-	})
-	return out
+	}
+	switch {
+	case !okFormula:
+		c.Failf("R4.range", "Reader.IsValid/formula", fn.Decl.Pos(), "a reader is valid exactly while rpos <= seek <= wpos of the current data range; IsValid answers differently for %s (a reader exactly at a bound is judged wrongly)", wrongCase)
+	case undec != "" && okClosed:
+		c.Undecidedf("R4.range", "Reader.IsValid/formula", fn.Decl.Pos(), "%s", undec)
+	default:
+		c.Check("R4.range", "Reader.IsValid/formula", fn.Decl.Pos(), okFormula, "a reader is valid exactly while rpos <= seek <= wpos of the current data range")
+		c.Check("R4.range", "Reader.IsValid/closed-is-invalid", fn.Decl.Pos(), okClosed, "a closed backlog makes every reader invalid")
+	}
+}
+
+// ringRecv returns the receiver leaf of the function being walked.
+func ringRecv(st *ring.State) *ring.Val { return st.Recv() }
+
+// readerRead: Reader.Read reads at its own position, advances it by exactly
+// the count returned and returns that count and error.
+func readerRead(c *core.Ctx, fn *core.Fn) {
+	ra := c.Func(pkg, "Backlog", "ReadAt")
+	if ra == nil {
+		return
+	}
+	res := ring.RunSym(c, fn, &ring.Sym{Opaque: func(f *types.Func) bool { return f.Origin() == ra.Obj.Origin() }})
+	if ok, why := res.Usable(); !ok {
+		c.Undecidedf("R4.range", "Reader.Read/advance", fn.Decl.Pos(), "%s", why)
+		return
+	}
+	seekVar := fieldVar(c, "Reader", "seek")
+	seek0 := ring.FieldAtEntry(res.Recv, seekVar)
+	var adv verdict
+	unknown := ""
+	for _, t := range res.Traces {
+		if !t.Normal() {
+			continue
+		}
+		calls := t.Find(func(e *ring.Event) bool { return ring.IsCallOf(e, ra.Obj) })
+		if len(calls) != 1 || len(calls[0].Results) != 2 || len(calls[0].Args) != 2 || len(t.Results) != 2 || len(res.Params) != 1 {
+			unknown = "a path of Reader.Read does not call Backlog.ReadAt exactly once"
+			continue
+		}
+		ev := calls[0]
+		end := t.End.FieldNow(res.Recv, seekVar)
+		ok := ev.Args[0].Key() == res.Params[0].Key() && ring.LinEqual(ev.Args[1], seek0) &&
+			ring.LinEqual(end, ring.VAdd(seek0, ev.Results[0])) &&
+			t.Results[0].IsResultOf(ev, 0) && t.Results[1].Unwrap().IsResultOf(ev, 1)
+		adv.add(t, fn.Decl.Pos(), ok)
+	}
+	if adv.bad == nil && unknown != "" {
+		c.Undecidedf("R4.range", "Reader.Read/advance", fn.Decl.Pos(), "%s", unknown)
+		return
+	}
+	adv.report(c, "R4.range", "Reader.Read/advance", fn.Decl.Pos(), "Reader.Read reads at its own position, advances it by exactly the count returned and returns that count")
+}
+
+// newReader: the Reader handed out belongs to this backlog and starts at the
+// write position (result #1 of the store's dataRange).
+func newReader(c *core.Ctx, fn *core.Fn) {
+	res := ring.RunSym(c, fn, &ring.Sym{})
+	if ok, why := res.Usable(); !ok {
+		c.Undecidedf("R4.range", "NewReader/starts-at-wpos", fn.Decl.Pos(), "%s", why)
+		return
+	}
+	blVar, seekVar := fieldVar(c, "Reader", "bl"), fieldVar(c, "Reader", "seek")
+	var start verdict
+	unknown := ""
+	for _, t := range res.Traces {
+		if !t.Normal() || len(t.Results) != 2 {
+			continue
+		}
+		r := t.Results[0]
+		if t.Facts.IsNil(r) {
+			continue // an error path
+		}
+		obj := ring.Pointee(r)
+		if obj == nil {
+			unknown = "cannot see the Reader that is returned: " + r.Key()
+			continue
+		}
+		seek := t.End.FieldNow(obj, seekVar)
+		bl := t.End.FieldNow(obj, blVar)
+		dr := t.Last(func(e *ring.Event) bool { return ring.IsFieldCall(e, "store", "dataRange") })
+		switch {
+		case dr == nil:
+			unknown = "the store's dataRange is not consulted"
+		case seek.IsResultOf(dr, 1) && bl.Key() == res.Recv.Key() && t.Facts.IsNil(t.Results[1]):
+			start.add(t, fn.Decl.Pos(), true)
+		case seek.IsResultOf(dr, 0) || bl.Key() != res.Recv.Key() || !t.Facts.IsNil(t.Results[1]):
+			start.add(t, fn.Decl.Pos(), false)
+		default:
+			unknown = "the new reader starts at " + seek.Key()
+		}
+	}
+	if start.bad == nil && (unknown != "" || !start.seen) {
+		if unknown == "" {
+			unknown = "no path returns a Reader"
+		}
+		c.Undecidedf("R4.range", "NewReader/starts-at-wpos", fn.Decl.Pos(), "%s", unknown)
+		return
+	}
+	start.report(c, "R4.range", "NewReader/starts-at-wpos", fn.Decl.Pos(), "a new reader starts at the current write position of this backlog")
+}
+
+// forwards: Backlog.DataRange reports the store's range in (rpos, wpos) order.
+func forwards(c *core.Ctx, fn *core.Fn) {
+	res := ring.RunSym(c, fn, &ring.Sym{})
+	if ok, why := res.Usable(); !ok {
+		c.Undecidedf("R4.range", "Backlog.DataRange/forwards", fn.Decl.Pos(), "%s", why)
+		return
+	}
+	var fw verdict
+	unknown := ""
+	for _, t := range res.Traces {
+		if !t.Normal() || len(t.Results) != 3 || !t.Facts.IsNil(t.Results[2]) {
+			continue
+		}
+		dr := t.Last(func(e *ring.Event) bool { return ring.IsFieldCall(e, "store", "dataRange") })
+		switch {
+		case dr == nil:
+			unknown = "a successful path does not consult the store's dataRange"
+		case t.Results[0].IsResultOf(dr, 0) && t.Results[1].IsResultOf(dr, 1):
+			fw.add(t, fn.Decl.Pos(), true)
+		case t.Results[0].IsResultOf(dr, 1) || t.Results[1].IsResultOf(dr, 0):
+			fw.add(t, fn.Decl.Pos(), false)
+		default:
+			unknown = "returns (" + t.Results[0].Key() + ", " + t.Results[1].Key() + ")"
+		}
+	}
+	if fw.bad == nil && (unknown != "" || !fw.seen) {
+		if unknown == "" {
+			unknown = "no successful path"
+		}
+		c.Undecidedf("R4.range", "Backlog.DataRange/forwards", fn.Decl.Pos(), "%s", unknown)
+		return
+	}
+	fw.report(c, "R4.range", "Backlog.DataRange/forwards", fn.Decl.Pos(), "DataRange reports the store's range in (rpos, wpos) order")
 }
